@@ -472,6 +472,16 @@ M('c09-toarray-advance', 'C09', 'src/containers/qlist.c',
   'E7', 'qlist_toarray', 'output cursor advances by something other than the copied length')
 
 
+M('c19-selfcopy-shortcut', 'C19', 'src/utilities/qstring.c',
+  "char *qstrncpy(char *dst, size_t size, const char *src, size_t nbytes) {\n    if (dst == NULL || size == 0 || src == NULL)\n        return dst;\n",
+  "char *qstrncpy(char *dst, size_t size, const char *src, size_t nbytes) {\n    if (dst == NULL || size == 0 || src == NULL)\n        return dst;\n    if (nbytes == 0 && dst == src)\n        return dst;\n",
+  'Q2', 'qstrncpy', 'short-cut return that leaves the destination un-terminated')
+M('c17-include-resume-offset', 'C17', 'src/extensions/qconfig.c',
+  "            strp = qstrreplace(\"sn\", str, token, incdata);\n            free(incdata);\n            free(str);\n            str = strp;\n",
+  "            size_t resume = strp - str;\n            strp = qstrreplace(\"sn\", str, token, incdata);\n            free(incdata);\n            free(str);\n            str = strp;\n            strp = str + resume;\n",
+  'LP3', 'qconfig_parse_file', 'scan resumes at an offset measured in the old document')
+
+
 def run_selftest(prop, rep, rule_fn, config='cmake-release'):
     """Apply every mutant of `prop` to a scratch copy, run rule_fn(prog, report) on it, and
     require a finding of the expected rule (and function)."""
